@@ -1448,6 +1448,8 @@ class Interp:
                 return any(b is c for b in x.cls.mro)
             if c.name == "Version":
                 return isinstance(x, VTok)
+            if hasattr(x, "ext_class"):
+                return x.ext_class == c.name
             return False
         raise AnalysisError(f"isinstance against {c!r}")
 
